@@ -83,9 +83,17 @@ type key struct {
 
 var keys = []key{{1, 300}, {1, 301}, {2, 300}}
 
-func templatePkt(k key) []byte {
+// templatePkt: definition 0 is one unsigned32; definition 1 (a replacement
+// with another field list of the same record size) is two unsigned16.
+func templatePkt(k key, def int) []byte {
 	pkt := ref.Header(0, 0, 0, k.dom, 2, 0)
 	pkt = ref.U16(pkt, k.id)
+	if def == 1 {
+		pkt = ref.U16(pkt, 2)
+		ie := common.IE(common.KU16)
+		pkt = ref.FieldSpec(pkt, ie.ElementId, ie.Len, 0)
+		return ref.FieldSpec(pkt, 11, 2, 0)
+	}
 	pkt = ref.U16(pkt, 1)
 	ie := common.IE(common.KU32)
 	return ref.FieldSpec(pkt, ie.ElementId, ie.Len, 0)
@@ -106,6 +114,7 @@ func dataPkt(k key, v uint32) []byte {
 type ghost struct {
 	stored bool
 	t0     int64
+	def    int
 }
 
 // Check_Schedule: all schedules of depth k over {template/refresh, bad
@@ -152,12 +161,19 @@ func schedule(nkeys, k int, forced []int) {
 				ki = sx.Choose("key", nkeys)
 			}
 			clk.curKey = ki
-			_, err := cp.VerifDecodePacket(templatePkt(keys[ki]), "1.2.3.4:5")
+			def := 0
+			if step >= len(forced) {
+				def = sx.Choose("definition", 2)
+			}
+			_, err := cp.VerifDecodePacket(templatePkt(keys[ki], def), "1.2.3.4:5")
 			sx.Assert(err == nil, "template-refused")
 			if g[ki].stored {
+				if g[ki].def != def {
+					sx.Reach("replacement")
+				}
 				sx.Reach("refresh")
 			}
-			g[ki] = ghost{stored: true, t0: clk.now}
+			g[ki] = ghost{stored: true, t0: clk.now, def: def}
 		case 1: // bad template
 			ki := sx.Choose("key", nkeys)
 			clk.curKey = ki
@@ -171,7 +187,12 @@ func schedule(nkeys, k int, forced []int) {
 			if g[ki].stored {
 				// never dropped early: usable until its timer has run after the lifetime
 				sx.Assert(err == nil, "template-dropped-early")
-				sx.Assert(m.GetSet().GetRecords()[0].GetOrderedElementList()[0].GetUnsigned32Value() == v, "data-value")
+				el := m.GetSet().GetRecords()[0].GetOrderedElementList()
+				if g[ki].def == 0 {
+					sx.Assert(len(el) == 1 && el[0].GetUnsigned32Value() == v, "data-decoded-with-the-current-definition")
+				} else {
+					sx.Assert(len(el) == 2 && el[0].GetUnsigned16Value() == uint16(v>>16), "data-decoded-with-the-current-definition")
+				}
 				if clk.now >= g[ki].t0+ttl {
 					sx.Reach("used-after-ttl-before-timer-ran")
 				}
@@ -231,6 +252,7 @@ func schedule(nkeys, k int, forced []int) {
 			for _, t := range snap {
 				if t.ObsDomainID == keys[ki].dom && t.TemplateID == keys[ki].id {
 					found = true
+					sx.Assert(len(t.IEs) == 1+g[ki].def, "stored-definition")
 					sx.Assert(t.ExpiryTime.Equal(clk.at(g[ki].t0+ttl)), "stored-expiry-time")
 				}
 			}
